@@ -8,6 +8,8 @@ import (
 	"encoding/hex"
 	"fmt"
 	"io"
+	"os"
+	"path/filepath"
 	"runtime"
 	"sort"
 	"strings"
@@ -17,6 +19,7 @@ import (
 	"github.com/goreleaser/nfpm/v2"
 	"github.com/goreleaser/nfpm/v2/deprecation"
 	"github.com/goreleaser/nfpm/v2/vrt"
+	"github.com/goreleaser/nfpm/v2/vrtcmd"
 )
 
 func buildHash(cfg *nfpm.Config, f string) string {
@@ -48,6 +51,10 @@ func checkC12Woven(env *engine.Env, c C12Case) engine.Outcome {
 	viol := func(sig, format string, a ...any) {
 		out.Violations = append(out.Violations, engine.Violation{Sig: sig,
 			Detail: fmt.Sprintf("config #%d (second thread: #%d) mode=%s formats=%v\n", c.Config, c.configOf(1), c.Mode, c.Formats) + fmt.Sprintf(format, a...) + "\nconfig:\n" + text})
+	}
+	if c.Mode == "S4" {
+		checkC12CLI(env, c, text, &out, viol)
+		return out
 	}
 	// sequential baseline, each from a fresh parse
 	base := make([]string, len(c.Formats))
@@ -219,3 +226,144 @@ func raceWhere(r vrt.Race) string {
 }
 
 var _ = bytes.Equal
+
+// checkC12CLI: two runs of the command-line tool's packaging function at once - same configuration file, same target
+// directory, two formats (or the same one twice): every schedule within the bound, switch points at the file-system
+// writes and the contended memory; each run leaves exactly the file a run on its own leaves.
+func checkC12CLI(env *engine.Env, c C12Case, text string, out *engine.Outcome, viol func(sig, format string, a ...any)) {
+	if !vrtcmd.Available {
+		out.HarnessError = "internal/cmd.doPackage was not found in its known form: the command-line scenario cannot be driven"
+		return
+	}
+	work, err := os.MkdirTemp(env.Scratch, "c12cli-")
+	if err != nil {
+		out.HarnessError = err.Error()
+		return
+	}
+	defer os.RemoveAll(work)
+	cfgPath := filepath.Join(work, "nfpm.yaml")
+	os.WriteFile(cfgPath, []byte(text), 0o644)
+	// the command prints progress lines: keep them off the harness's own output
+	devnull, _ := os.OpenFile(os.DevNull, os.O_WRONLY, 0)
+	oldStdout := os.Stdout
+	if devnull != nil {
+		os.Stdout = devnull
+		defer func() { os.Stdout = oldStdout; devnull.Close() }()
+	}
+	dirHash := func(dir string) string {
+		entries, _ := os.ReadDir(dir)
+		var l []string
+		for _, e := range entries {
+			b, _ := os.ReadFile(filepath.Join(dir, e.Name()))
+			s := sha256.Sum256(b)
+			l = append(l, e.Name()+"="+hex.EncodeToString(s[:8]))
+		}
+		sort.Strings(l)
+		return strings.Join(l, ",")
+	}
+	// each run alone, into its own directory
+	var alone []string
+	for i, f := range c.Formats {
+		d := filepath.Join(work, fmt.Sprintf("alone-%d", i))
+		os.Mkdir(d, 0o755)
+		if err := vrtcmd.DoPackage(cfgPath, d, f); err != nil {
+			alone = append(alone, "ERR "+err.Error())
+		} else {
+			alone = append(alone, dirHash(d))
+		}
+	}
+	want := map[string]bool{}
+	for _, a := range alone {
+		for _, kv := range strings.Split(a, ",") {
+			want[kv] = true
+		}
+	}
+	bound := 2
+	if env.Thorough() {
+		bound = 3
+	}
+	vrt.ResetContended()
+	races := map[string]vrt.Race{}
+	outcomes := map[string]bool{}
+	n := 0
+	runOnce := func(prefix []int) []vrt.Point {
+		n++
+		dir := filepath.Join(work, fmt.Sprintf("both-%d", n))
+		os.Mkdir(dir, 0o755)
+		defer os.RemoveAll(dir)
+		errs := make([]error, len(c.Formats))
+		bodies := make([]func(), len(c.Formats))
+		for i := range bodies {
+			i := i
+			bodies[i] = func() { errs[i] = vrtcmd.DoPackage(cfgPath, dir, c.Formats[i]) }
+		}
+		vrt.ShareReset()
+		vrt.ShareGlobals()
+		var r vrt.Result
+		gcOff(func() { r = vrt.Run(prefix, bodies...) })
+		out.Transitions++
+		for _, rc := range r.Races {
+			races[rc.Where+"|"+rc.First+"|"+rc.Second] = rc
+		}
+		if r.Deadlock {
+			viol("concurrency:deadlock", "schedule %v ends with threads blocked forever", prefix)
+		}
+		for _, p := range r.Panics {
+			viol("concurrency:panic", "schedule %v: a run panicked: %v", prefix, p)
+		}
+		for i, e := range errs {
+			if (e != nil) != strings.HasPrefix(alone[i], "ERR ") {
+				viol("concurrency:cli:result-differs:"+c.Formats[i], "schedule %v: run %d (-p %s) returned %v next to the other run, %q on its own", prefix, i, c.Formats[i], e, alone[i])
+			}
+		}
+		got := dirHash(dir)
+		outcomes[got] = true
+		gm := map[string]bool{}
+		for _, kv := range strings.Split(got, ",") {
+			gm[kv] = true
+		}
+		for kv := range want {
+			if kv != "" && !strings.HasPrefix(kv, "ERR ") && !gm[kv] {
+				viol("concurrency:cli:output-differs", "schedule %v: two runs into one directory leave %q; on their own the runs leave %v", prefix, got, alone)
+				break
+			}
+		}
+		for kv := range gm {
+			if kv != "" && !want[kv] {
+				viol("concurrency:cli:output-differs", "schedule %v: two runs into one directory leave %q; on their own the runs leave %v", prefix, got, alone)
+				break
+			}
+		}
+		return r.Points
+	}
+	for i := 0; i < 4; i++ {
+		runOnce(nil)
+		if !vrt.NewContended() {
+			break
+		}
+	}
+	maxExecs := 200
+	if env.Thorough() {
+		maxExecs = 5000
+	}
+	st := explore(bound, maxExecs, runOnce)
+	if st.Capped {
+		out.Counters = map[string]int{"scenarios_capped": 1}
+	}
+	var rk []string
+	for k := range races {
+		rk = append(rk, k)
+	}
+	sort.Strings(rk)
+	for _, k := range rk {
+		rc := races[k]
+		viol("concurrency:race:S4:"+raceWhere(rc), "unsynchronised conflicting accesses to %s: %s / %s", rc.Where, rc.First, rc.Second)
+	}
+	if out.Counters == nil {
+		out.Counters = map[string]int{}
+	}
+	out.Counters["schedules"] += st.Execs
+	out.States = len(outcomes)
+	out.Nontrivial = true
+	out.Key = fmt.Sprintf("%d:S4:%v:%d:races=%d", c.Config, c.Formats, len(outcomes), len(races))
+}
